@@ -164,6 +164,8 @@ def load_case(case):
             if abs(got - want) > 1e-9:
                 raise HarnessError(f"steered distance is {got!r}, intended {want!r}")
         case["_steer_skipped"] = bool(info.get("steer_skipped"))
+        if case.get("reletter"):
+            s3 = gen3d.reletter_u_to_t(s3, case["reletter"]["slots"], case["reletter"]["c7"])
         return s3
     if kind == "moved":
         s3 = corpus.structure(case["file"])
